@@ -7,6 +7,7 @@ package main
 
 import (
 	"go/token"
+	"go/types"
 	"strings"
 
 	"golang.org/x/tools/go/ssa"
@@ -187,6 +188,15 @@ func (m *Module) fieldFlows(f *ssa.Function) []flow {
 					// append(o.F, xs...) with a non-literal operand is a leaf flow of elements
 					continue
 				}
+				if call, ok := x.Val.(*ssa.Call); ok {
+					// o.F = copyOf(r.G): a helper that builds a fresh map from its argument, entry by entry
+					if g := m.callee(call.Common()); g != nil && m.mapCopyFn(g) {
+						src := m.ap(call.Call.Args[0])
+						out = append(out, flow{p.root, strings.Join(append(append([]string{}, p.path...), "{}"), "."), src.extend("{}"), call, x})
+						out = append(out, flow{p.root, strings.Join(append(append([]string{}, p.path...), "{key}"), "."), src.extend("{key}"), call, x})
+						continue
+					}
+				}
 				if ap, ok := isBuiltinCall(x.Val, "append"); ok && len(ap.Call.Args) > 1 {
 					out = append(out, flow{p.root, strings.Join(append(append([]string{}, p.path...), "[]"), "."), m.ap(ap.Call.Args[1]).extend("[]"), ap.Call.Args[1], x})
 					continue
@@ -235,4 +245,68 @@ func (m *Module) resultRoots(f *ssa.Function, i int) []ssa.Value {
 		}
 	}
 	return out
+}
+
+// mapCopyFn: g takes one map and returns nil or a map it made itself whose only updates are
+// made[k] = v for the (k, v) of a range over the parameter — an entry-by-entry copy.
+func (m *Module) mapCopyFn(g *ssa.Function) bool {
+	if g == nil || len(g.Blocks) == 0 || len(g.Params) != 1 || g.Signature.Results().Len() != 1 {
+		return false
+	}
+	if v, ok := m.mapCopy[g]; ok {
+		return v
+	}
+	if m.mapCopy == nil {
+		m.mapCopy = map[*ssa.Function]bool{}
+	}
+	m.mapCopy[g] = false
+	prm := g.Params[0]
+	if _, isMap := prm.Type().Underlying().(*types.Map); !isMap {
+		return false
+	}
+	var made *ssa.MakeMap
+	for _, r := range returnsOf(g) {
+		for _, v := range returnValues(r, 0) {
+			if isNilConst(v) {
+				continue
+			}
+			mm, ok := v.(*ssa.MakeMap)
+			if !ok || (made != nil && made != mm) {
+				return false
+			}
+			made = mm
+		}
+	}
+	if made == nil {
+		return false
+	}
+	updates := 0
+	for _, b := range g.Blocks {
+		for _, in := range b.Instrs {
+			switch x := in.(type) {
+			case *ssa.MapUpdate:
+				if x.Map != ssa.Value(made) {
+					return false
+				}
+				k, okK := x.Key.(*ssa.Extract)
+				v, okV := x.Value.(*ssa.Extract)
+				if !okK || !okV || k.Index != 1 || v.Index != 2 || k.Tuple != v.Tuple {
+					return false
+				}
+				nx, ok := k.Tuple.(*ssa.Next)
+				if !ok {
+					return false
+				}
+				rg, ok := nx.Iter.(*ssa.Range)
+				if !ok || rg.X != ssa.Value(prm) {
+					return false
+				}
+				updates++
+			case *ssa.Store:
+				return false
+			}
+		}
+	}
+	m.mapCopy[g] = updates > 0
+	return updates > 0
 }
